@@ -45,10 +45,11 @@ def _esc(text, specials, style):
 def write_key(text, sep, style=0, first=False):
     specials = set(_KEY_SPECIALS)
     specials.add(sep)
-    if "*" in text and not any(c in text for c in "[]()"):
+    if "*" in text:
         # an undemarcated * is a wildcard; a literal one must be demarcated
+        # (brackets, parentheses and quotes stay live inside demarcation)
         q = '"' if style in (2, 4) else "'"
-        return q + "".join("\\" + c if c in "'\"\\" else c
+        return q + "".join("\\" + c if c in "'\"\\[]()" else c
                            for c in text) + q
     out = _esc(text, specials, style)
     if out and out[0] == "&" and style == 0:
@@ -114,6 +115,8 @@ def write_path(segs, sep=".", style=0):
             needs_sep = True
         if needs_sep and not first:
             out += sep
+        if first and sep == "." and text.startswith("/"):
+            text = "\\" + text     # else the path would read as slash notation
         out += text
         first = False
     return out
